@@ -3,6 +3,7 @@ mod attacks;
 mod engine;
 mod lincode;
 mod model;
+mod oracle;
 mod props;
 mod replay;
 mod schemes;
